@@ -8,6 +8,7 @@ CONSTANTS
   NVals = 2
   ShiftMag = {1, 2, 3}
   FreeB = TRUE
+  NPart = 12
   Depth = 40
   NWalks = 20
   Seed = 1
